@@ -2,6 +2,7 @@ package harness
 
 import (
 	"sort"
+	"strings"
 	"sync"
 	"sync/atomic"
 
@@ -75,6 +76,30 @@ func (s *coop) install() {
 func (s *coop) uninstall() {
 	verifsim.SetYieldHook(nil)
 	verifsim.SetSelectHook(nil)
+}
+
+// takeWoken removes and returns a goroutine parked at a "+" site (rule R14: it has just come out of a
+// communication and parked only so that goroutines run one at a time); nil when there is none. Such a
+// goroutine is running as far as the program is concerned: the scheduler lets it go on, in canonical
+// order and without spending a number of the plan, before it takes any decision or lets time pass.
+func (s *coop) takeWoken() *parkedG {
+	s.mu.Lock()
+	defer s.mu.Unlock()
+	best := -1
+	for i, g := range s.parked {
+		if !strings.HasSuffix(g.site, "+") {
+			continue
+		}
+		if best < 0 || g.site < s.parked[best].site || (g.site == s.parked[best].site && (g.key < s.parked[best].key || (g.key == s.parked[best].key && g.seq < s.parked[best].seq))) {
+			best = i
+		}
+	}
+	if best < 0 {
+		return nil
+	}
+	g := s.parked[best]
+	s.parked = append(s.parked[:best], s.parked[best+1:]...)
+	return g
 }
 
 // take removes one parked goroutine (chosen by pick among the parked ones in a
